@@ -73,7 +73,7 @@ def Sys.init (scripts : List (List Cmd)) : Sys :=
 def Sys.lockOf (s : Sys) (slot : Nat) : Nat := if slot = 0 then s.lock0 else s.lock1
 
 def Sys.setLock (s : Sys) (slot : Nat) (v : Nat) : Sys :=
-  if slot = 0 then { s with lock0 := v } else { s with lock1 := v }
+  { s with lock0 := if slot = 0 then v else s.lock0, lock1 := if slot = 0 then s.lock1 else v }
 
 /-- what the shim reports for a step -/
 inductive Obs where
